@@ -631,7 +631,7 @@ func exyStamp(ctx context.Context, f []string) string {
 	hm := compose.NewOAuth2HMACStrategy(cfg)
 	store := storage.NewMemoryStore()
 	base := &fosite.DefaultClient{ID: "c", GrantTypes: fosite.Arguments{"client_credentials", "implicit", "password", "refresh_token", "authorization_code"},
-		ResponseTypes: fosite.Arguments{"token", "code"}, Scopes: fosite.Arguments{"a"}, RedirectURIs: []string{"https://c.example/cb"}}
+		ResponseTypes: fosite.Arguments{"token", "code"}, Scopes: fosite.Arguments{"a", "offline"}, RedirectURIs: []string{"https://c.example/cb"}}
 	client := exyClient(exyKV(f, "cl"), base)
 	sess := &fosite.DefaultSession{ExpiresAt: exyExpMap(fosite.AccessToken, exyKV(f, "pre"), 0), Subject: "u"}
 	if !exySleepTo(exyInt(exyKV(f, "now"))) {
@@ -685,6 +685,51 @@ func exyStamp(ctx context.Context, f []string) string {
 			return exyErr(err)
 		}
 		return fmt.Sprintf("at=%s rt=%s", exyOptNs(sess.GetExpiresAt(fosite.AccessToken)), exyOptNs(sess.GetExpiresAt(fosite.RefreshToken)))
+	case "codetoken":
+		// a code issued now (with a generous code lifetime) and exchanged at once: the token endpoint stamps
+		// the access- and refresh-token expiry into the stored session
+		cfg2 := *cfg
+		cfg2.AuthorizeCodeLifespan = time.Hour
+		hm2 := compose.NewOAuth2HMACStrategy(&cfg2)
+		h := &foauth2.AuthorizeExplicitGrantHandler{AccessTokenStrategy: hm2, RefreshTokenStrategy: hm2, AuthorizeCodeStrategy: hm2,
+			CoreStorage: store, TokenRevocationStorage: store, Config: &cfg2}
+		ar := fosite.NewAuthorizeRequest()
+		ar.Client, ar.Session = client, sess
+		ar.ResponseTypes = fosite.Arguments{"code"}
+		ar.RedirectURI, _ = url.Parse("https://c.example/cb")
+		aresp := fosite.NewAuthorizeResponse()
+		if err := h.IssueAuthorizeCode(ctx, ar, aresp); err != nil {
+			return exyErr(err)
+		}
+		tr := fosite.NewAccessRequest(&fosite.DefaultSession{})
+		tr.Client = client
+		tr.GrantTypes = fosite.Arguments{"authorization_code"}
+		tr.Form = url.Values{"code": {aresp.GetCode()}, "redirect_uri": {"https://c.example/cb"}}
+		if err := h.HandleTokenEndpointRequest(ctx, tr); err != nil {
+			return exyErr(err)
+		}
+		return fmt.Sprintf("at=%s rt=%s", exyOptNs(tr.GetSession().GetExpiresAt(fosite.AccessToken)), exyOptNs(tr.GetSession().GetExpiresAt(fosite.RefreshToken)))
+	case "refresh":
+		h := &foauth2.RefreshTokenGrantHandler{AccessTokenStrategy: hm, RefreshTokenStrategy: hm, TokenRevocationStorage: store, Config: cfg}
+		tok, sig, err := hm.GenerateRefreshToken(ctx, nil)
+		if err != nil {
+			return exyErr(err)
+		}
+		orig := fosite.NewRequest()
+		orig.Client, orig.Session = client, sess
+		orig.GrantedScope = fosite.Arguments{"offline"}
+		orig.RequestedAt = time.Now().UTC()
+		if err := store.CreateRefreshTokenSession(ctx, sig, "", orig); err != nil {
+			return exyErr(err)
+		}
+		tr := fosite.NewAccessRequest(&fosite.DefaultSession{})
+		tr.Client = client
+		tr.GrantTypes = fosite.Arguments{"refresh_token"}
+		tr.Form = url.Values{"refresh_token": {tok}}
+		if err := h.HandleTokenEndpointRequest(ctx, tr); err != nil {
+			return exyErr(err)
+		}
+		return fmt.Sprintf("at=%s rt=%s", exyOptNs(tr.GetSession().GetExpiresAt(fosite.AccessToken)), exyOptNs(tr.GetSession().GetExpiresAt(fosite.RefreshToken)))
 	case "jwtbearer":
 		nowS := time.Now().Unix()
 		out, s2 := exyAssertion(ctx, map[string]interface{}{"exp": nowS + 60, "iat": nowS}, false, 0, life, exyKV(f, "cl"))
@@ -1086,12 +1131,12 @@ func ExpiryCases(e *Emitter, r *Rand, tier string) {
 			return exyEncList(v)
 		}
 		lifes := []int64{0, exySec, exySec + exySec/2, 3600 * exySec, 3600*exySec + 400_000_000, 3600*exySec + 500_000_000, 1, -exySec, 90*exyDay + 600_000_000}
-		for _, site := range []string{"code", "cc", "implicit", "password", "device", "jwtbearer"} {
+		for _, site := range []string{"code", "cc", "implicit", "password", "codetoken", "refresh", "device", "jwtbearer"} {
 			for _, frac := range exyFracs {
 				now := base + frac
 				for _, life := range lifes {
 					rtlifes := []int64{0}
-					if site == "password" {
+					if site == "password" || site == "codetoken" || site == "refresh" {
 						rtlifes = []int64{0, -1, -exySec, 1, exyDay + 500_000_000, 30 * exyDay}
 					}
 					for _, rtlife := range rtlifes {
@@ -1101,7 +1146,10 @@ func ExpiryCases(e *Emitter, r *Rand, tier string) {
 								override([]int{3, 4, 7, 8}, []int64{7*exySec + 300_000_000, 8*exySec + 500_000_000, 9*exySec + 700_000_000, 10*exySec + 1}),
 								override([]int{6}, []int64{11*exySec + 500_000_000}),
 								override([]int{0, 2, 10, 11}, []int64{exySec, exySec, exySec, exySec}), // other pairs only
-								override([]int{8}, []int64{-1}), override([]int{7, 8}, []int64{0, 0}))
+								override([]int{8}, []int64{-1}), override([]int{7, 8}, []int64{0, 0}),
+								// authorization_code and refresh_token grants: access (0, 10) and refresh (2, 11) overrides
+								override([]int{0, 2, 10, 11}, []int64{5*exySec + 300_000_000, 6*exySec + 500_000_000, 12*exySec + 700_000_000, 13*exySec + 1}),
+								override([]int{2, 11}, []int64{2 * exySec, 3 * exySec}), override([]int{2, 11}, []int64{-1, -1}))
 						}
 						for _, cl := range cls {
 							pres := []string{"-"}
@@ -1238,7 +1286,7 @@ func ExpiryCases(e *Emitter, r *Rand, tier string) {
 			case "expin":
 				g.do("expin", "exp", exyI(X), "life", exyI(near()), "now", exyI(now))
 			case "stamp":
-				site := g.pick([]string{"code", "cc", "implicit", "password", "device"})
+				site := g.pick([]string{"code", "cc", "implicit", "password", "codetoken", "refresh", "device"})
 				life := []int64{0, rnd(10 * exyDay), exySec * rnd(100000), rnd(3 * exySec)}[g.r.Intn(4)]
 				rtlife := []int64{0, -1, rnd(90 * exyDay), exySec * rnd(100000)}[g.r.Intn(4)]
 				g.do("stamp", "site", site, "now", exyI(now), "life", exyI(life), "rtlife", exyI(rtlife), "cl", "nil", "pre", "-")
